@@ -15,7 +15,7 @@ out=["# Seeded changes and what catches them","",
 "`scenario.json` and run with `./check --scenario`, see DESIGN.md 11.2, or - third wave - replaced by `replay.json`, a minimised plan",
 "written by the detecting check: `tools/replay_mutant.sh` confirms that `./check --replay` passes on the unchanged tree and reports the violation with the change). `patch.diff` applies to /repo with",
 "`git -C /repo apply`; the checks are run against a worktree through `VERIF_REPO=<dir> ./check <id> quick`.","",
-"Summary: %d changes (five waves of sub-agents). Caught by the checks as they were when the change arrived: %d; missed first and caught after the machinery was extended (the extension is named in the last column): %d; break their property only through a dimension that belongs to another property's quantifier and are caught by that property's check: %d; NOT detected (reason in the last column): %d."%(
+"Summary: %d changes (six waves of sub-agents). Caught by the checks as they were when the change arrived: %d; missed first and caught after the machinery was extended (the extension is named in the last column): %d; break their property only through a dimension that belongs to another property's quantifier and are caught by that property's check: %d; NOT detected (reason in the last column): %d."%(
  len(rows), sum(1 for _,m in rows if m['note'].startswith('caught as built')), sum(1 for _,m in rows if m['note'].lower().startswith('missed')), sum(1 for _,m in rows if m['note'].startswith('not ') or m['note'].startswith('bonus')), sum(1 for _,m in rows if m['note'].startswith('NOT DETECTED'))),
 "","| id | change | needs | detected by | history |","|----|--------|-------|-------------|---------|"]
 for id,m in rows:
